@@ -110,6 +110,59 @@ func runBox(r *prng.R, s *out.Sink, tier string) {
 		histories, maxOps = 1500, 1500
 	}
 	nextID := 0
+	// a scripted history first: two topics that never start are kept busy by senders that are over the per-topic message
+	// limit (so their messages are dropped). Dropped traffic must not keep a topic alive: what sender 1 buffered on them at
+	// epoch 0 is discarded after the expiry period and its in-flight accounting with it, so that sender 1 — silent ever
+	// since — is not throttled on a fresh topic many periods later.
+	for _, expiry := range []int{2, 3, 4} {
+		rg := newBoxRig(1, expiry)
+		var hist []string
+		emit := func(kind string, op, ans string) string {
+			s.Op(kind, true, op, ans)
+			hist = append(hist, op+"   => "+ans)
+			return ans
+		}
+		handedIn := func(ans string, id int) bool {
+			for _, f := range strings.Fields(strings.Split(ans, "|")[0]) {
+				var x int
+				if n, _ := fmt.Sscanf(f, "h%d", &x); n == 1 && x == id {
+					return true
+				}
+			}
+			return false
+		}
+		emit("new", fmt.Sprintf("box new 1 100 %d", expiry), "ok")
+		nextID++
+		a := nextID
+		emit("keepalive/honest", fmt.Sprintf("box recv 1 50 %d", a), rg.recv(1, 50, a))
+		nextID++
+		emit("keepalive/honest", fmt.Sprintf("box recv 1 49 %d", nextID), rg.recv(1, 49, nextID))
+		for k := 0; k < 104; k++ {
+			nextID++
+			emit("keepalive/flood", fmt.Sprintf("box recv 2 50 %d", nextID), rg.recv(2, 50, nextID))
+			nextID++
+			emit("keepalive/flood", fmt.Sprintf("box recv 3 49 %d", nextID), rg.recv(3, 49, nextID))
+		}
+		for period := 0; period < 4; period++ {
+			for k := 0; k < expiry+1; k++ {
+				emit("keepalive/tick", "box tick", rg.tick())
+			}
+			nextID++
+			emit("keepalive/over-limit", fmt.Sprintf("box recv 2 50 %d", nextID), rg.recv(2, 50, nextID))
+			nextID++
+			emit("keepalive/over-limit", fmt.Sprintf("box recv 3 49 %d", nextID), rg.recv(3, 49, nextID))
+			emit("keepalive/send", fmt.Sprintf("box send %d", 51+period), rg.send(51+period))
+		}
+		nextID++
+		z := nextID
+		emit("keepalive/fresh", fmt.Sprintf("box recv 1 60 %d", z), rg.recv(1, 60, z))
+		if ans := emit("keepalive/fresh-send", "box send 60", rg.send(60)); !handedIn(ans, z) {
+			s.Violate("C15", fmt.Sprintf("sender 1, silent for %d expiry periods, is throttled on a fresh topic because of two never-started topics that only dropped (over-limit) traffic of others kept busy (expiry %d epochs): %s", 4, expiry, rg.snap()), strings.Join(hist, "\n"))
+		}
+		if ans := emit("keepalive/stale-send", "box send 50", rg.send(50)); handedIn(ans, a) {
+			s.Violate("C15", fmt.Sprintf("a message buffered at epoch 0 for a topic that did not start for %d expiry periods (expiry %d epochs) was never discarded: it is handed over when the topic finally starts", 4, expiry), strings.Join(hist, "\n"))
+		}
+	}
 	for h := 0; h < histories; h++ {
 		maxTopics := 1 + r.Intn(4)
 		expiry := 2 + r.Intn(3)
